@@ -343,7 +343,11 @@ func c02Graphs(c *core.Ctx, sc *impl.Scratch, fc string, foi string, seq *int) {
 		np := 3 + ch.Choose(maxP-2)
 		var rels []fo.Expr
 		for k := 0; k < nStmts; k++ {
-			switch ch.Choose(5) {
+			switch ch.Choose(7) {
+			case 5: // slice.Length pi: a GENERIC call binds pi to a structured type with a fresh inner variable
+				rels = append(rels, fo.App{Fn: "slice.Length", Args: []fo.Expr{V(ch.Choose(np))}})
+			case 6: // frt.Snd pi: pi is a pair of two fresh variables
+				rels = append(rels, fo.App{Fn: "frt.Snd", Args: []fo.Expr{V(ch.Choose(np))}})
 			case 0: // [pi; pj]
 				i := ch.Choose(np)
 				j := ch.Choose(np)
@@ -727,7 +731,9 @@ func c02ResultFirst(c *core.Ctx, sc *impl.Scratch, fc string, foi string) {
 		rec(nil, make([]bool, n))
 		return out
 	}
-	wrappers := []string{"plain", "Some", "slice", "pair-with-parameter", "Some-and-plain"}
+	// "phantom": a generic union whose type parameter no case mentions stands between the lambdas - its variable
+	// occurs in the type arguments only (signature judged; Go cannot infer the constructor's T: build not judged)
+	wrappers := []string{"plain", "Some", "slice", "pair-with-parameter", "Some-and-plain", "phantom"}
 	var defs []fo.FuncDef
 	k := 0
 	for n := 2; n <= 3; n++ {
@@ -754,6 +760,12 @@ func c02ResultFirst(c *core.Ctx, sc *impl.Scratch, fc string, foi string) {
 					default:
 						es = append(es, h)
 					}
+				}
+				if w == "phantom" {
+					if n == 3 {
+						continue
+					}
+					es = []fo.Expr{es[0], fo.Ctor{Case: "TagA", UnitCall: true}, es[1]}
 				}
 				d := fo.FuncDef{Name: fmt.Sprintf("f_%d", 700000+k), Params: []fo.Param{{Unit: true}}}
 				k++
@@ -801,6 +813,11 @@ func c02ResultFirst(c *core.Ctx, sc *impl.Scratch, fc string, foi string) {
 		c.Hist("by_construct", "result-first-type-variables", 1)
 		g := gens[d.Name]
 		rep := map[string]any{"input": map[string]string{"t.fo": fo.Prelude + srcs[i]}, "definition": srcs[i], "expected": wants[i], "observed": res[i].Status + " " + g[0] + " " + trunc(res[i].Detail, 600)}
+		if res[i].Status == "go-build" && strings.Contains(srcs[i], "TagA") && strings.Contains(res[i].Detail, "cannot infer T") && g[0] == wants[i] {
+			c.AddInt("phantom_constructor_without_type_arguments (Go cannot infer T: build not judged)", 1)
+			c.Outcome("agree")
+			continue
+		}
 		if res[i].Status != "ok" {
 			c.Violation("C02:result-first:"+res[i].Status, fmt.Sprintf("%s %s (principal type %s)\n%s", res[i].Status, firstLines(res[i].Detail, 2), wants[i], srcs[i]), rep)
 			continue
